@@ -1183,7 +1183,8 @@ int streamCli(std::istream& in)
       for (char c : joined) { if (c == '\x1f') { args.push_back(cur); cur.clear(); } else cur.push_back(c); }
       if (!joined.empty()) args.push_back(cur);
     }
-    std::string cmd = std::string("ASAN_OPTIONS=exitcode=99:detect_leaks=1 UBSAN_OPTIONS=print_stacktrace=1:exitcode=99 ") + shellQuote(bin);
+    // every generated command line finishes within seconds; 120 s = "does not terminate" (e.g. a wrapped bound)
+    std::string cmd = std::string("ASAN_OPTIONS=exitcode=99:detect_leaks=1 UBSAN_OPTIONS=print_stacktrace=1:exitcode=99 timeout -s KILL 120 ") + shellQuote(bin);
     for (auto& a : args) cmd += " " + shellQuote(a);
     cmd += " 2>/dev/null";
     FILE* f = popen(cmd.c_str(), "r");
@@ -1225,7 +1226,8 @@ int streamCli(std::istream& in)
     for (auto& c : first) if (c == ' ') c = '_';
     for (auto& c : last) if (c == ' ') c = '_';
     std::cout << " lines=" << lines << " fnv=" << fnv1a(text) << " first=" << first << " last=" << last;
-    if (rc > 1) std::cout << " ORACLE-MISMATCH the program died (exit status " << rc << ": signal / sanitizer report)";
+    if (rc == 137 || rc == 124) std::cout << " ORACLE-MISMATCH the program did not finish within 120 s (killed): a small request was turned into a huge one";
+    else if (rc > 1) std::cout << " ORACLE-MISMATCH the program died (exit status " << rc << ": signal / sanitizer report)";
     else if (exp == "exp=reject")
     {
       if (rc != 1 || !text.empty())
